@@ -207,6 +207,10 @@ var c02EnumDocs = map[string][]string{
 		`{"key":"value","a\nb":[1,2.5e3,true,false,null,"é😀é"],"n":-12345678901}`,
 		`[[],{},[{"":""}],"\\\"", 18446744073709551615 ,-9223372036854775808,1e-7]  [1]`,
 		`"\néé"`, `123456`, ` nul`, `[1,]`, `{"a" 1}`, `"\ud800"`, `"\u12"`,
+		// multi-byte Unicode white space (NBSP, NEL, U+2028, U+3000) and the lone bytes
+		// 0x85 / 0xA0 between tokens: not RFC 8259, so only the verdict is compared —
+		// it must not depend on a cut falling inside such a character
+		"[1,\u00a02\u0085,\u2028{\"a\"\u3000:\u00a0\"b\"\u2029}\u00a0]\u3000", "[1,\x85 2\xa0]", "\u00a0{\"k\"\u00a0:\u00a01}", "[\u2028]",
 	},
 	"ubjson": {
 		"{i\x03abci\x01i\x05helloSi\x05worldi\x02xy[i\x01I\x01\x00l\x00\x01\x00\x00L\x00\x00\x00\x01\x00\x00\x00\x00d\x3f\x80\x00\x00D\x3f\xf0\x00\x00\x00\x00\x00\x00ZTFCa]}",
